@@ -483,6 +483,9 @@ Proof.
   - destruct H. split; auto. congruence.
 Qed.
 
+Lemma triple_cons : forall O L i L1 c L2, triple O L [i] L1 -> triple O L1 c L2 -> triple O L (i :: c) L2.
+Proof. intros O L i L1 c L2 H1 H2. exact (triple_app O L [i] L1 c L2 H1 H2). Qed.
+
 Lemma triple_decrefs : forall O ts (L : nat -> Prop), NoDup ts -> (forall t, In t ts -> L t) ->
   triple O L (map IDecref ts) (fun u => L u /\ ~ In u ts).
 Proof.
@@ -498,8 +501,12 @@ Qed.
 Lemma in_tmps_of : forall rs t, In t (tmps_of rs) <-> In (RTmp t) rs.
 Proof.
   induction rs as [|r rs IH]; simpl; intros; [tauto|].
-  rewrite in_app_iff, IH. destruct r; simpl; intuition; try discriminate.
-  - subst; auto. - injection H as ->; auto.
+  rewrite in_app_iff, IH. destruct r as [i|x|t0]; simpl.
+  - intuition discriminate.
+  - intuition discriminate.
+  - split.
+    + intros [[H|[]]|H]; [subst; auto|auto].
+    + intros [H|H]; [injection H as ->; auto|auto].
 Qed.
 
 Lemma triple_gives : forall O rs (L : nat -> Prop), NoDup (tmps_of rs) -> (forall t, In t (tmps_of rs) -> L t) ->
@@ -507,11 +514,12 @@ Lemma triple_gives : forall O rs (L : nat -> Prop), NoDup (tmps_of rs) -> (foral
 Proof.
   induction rs as [|r rs IH]; simpl; intros L Hnd Hin.
   - eapply triple_ext; [|apply triple_nil]. simpl; tauto.
-  - change (give_of r :: map give_of rs) with ([give_of r] ++ map give_of rs).
-    destruct r as [i|x|t]; simpl in *.
-    + eapply triple_app; [|apply IH; auto]. apply triple_one. intros. apply step_IGiveB; auto. discriminate.
-    + eapply triple_app; [|apply IH; auto]. apply triple_one. intros. apply step_IGiveB; auto. discriminate.
-    + inversion Hnd; subst. eapply triple_ext; [|eapply triple_app with (L1 := fun u => L u /\ u <> t)].
+  - destruct r as [i|x|t]; simpl in *.
+    + eapply triple_cons with (L1 := L); [|apply IH; auto].
+      apply triple_one. intros. apply step_IGiveB; auto. discriminate.
+    + eapply triple_cons with (L1 := L); [|apply IH; auto].
+      apply triple_one. intros. apply step_IGiveB; auto. discriminate.
+    + inversion Hnd; subst. eapply triple_ext; [|eapply triple_cons with (L1 := fun u => L u /\ u <> t)].
       2:{ apply triple_one. intros. apply step_ISteal; auto. }
       2:{ apply IH; auto. intros u Hu. split; auto. intro; subst; auto. }
       simpl. intros u. intuition.
@@ -525,21 +533,32 @@ Lemma alloc_ok : forall A t A', alloc A = (t, A') -> wfA A ->
   wfA A' /\ ~ inuse A t /\ (forall u, inuse A' u <-> inuse A u \/ u = t).
 Proof.
   intros [n f] t A' H [Hnd Hlt]. unfold alloc in H. simpl in *. destruct f as [|t0 f].
-  - injection H as <- <-. unfold wfA, inuse; simpl. repeat split; auto; try lia.
-    + constructor. + intros u []. + intros [H _]; lia.
-    + intros [H _]. lia. + intros [[H _]|H]; lia. + intros [[_ H]|H] Hf; auto.
-  - injection H as <- <-. inversion Hnd; subst. unfold wfA, inuse; simpl. repeat split; auto.
-    + intros [_ H]; auto.
-    + intros [H H']. destruct (Nat.eq_dec u t0); auto. left; split; auto. intros [?|?]; auto.
-    + intros [[H _]|H]; auto. subst. apply Hlt; auto.
-    + intros [[_ H]|H] Hf; auto. subst; auto.
+  - injection H as <- <-. unfold wfA, inuse; simpl.
+    split; [split; [constructor|intros u []]|]. split; [intros [H _]; lia|].
+    intros u; split.
+    + intros [H1 H2]. destruct (Nat.eq_dec u n); [auto|left; split; [lia|auto]].
+    + intros [[H1 H2]|H1]; (split; [lia|auto]).
+  - injection H as <- <-. inversion Hnd as [|? ? Hn1 Hn2]; subst. unfold wfA, inuse; simpl.
+    split; [split; [auto|intros u Hu; apply Hlt; right; auto]|].
+    split; [intros [_ H]; apply H; auto|].
+    intros u; split.
+    + intros [H1 H2]. destruct (Nat.eq_dec u t0); [auto|]. left; split; auto.
+      intros [H|H]; [congruence|auto].
+    + intros [[H1 H2]|H1].
+      * split; auto.
+      * subst. split; [apply Hlt; left; auto|auto].
 Qed.
 
 Lemma release_ok : forall A t, wfA A -> inuse A t ->
   wfA (release t A) /\ (forall u, inuse (release t A) u <-> inuse A u /\ u <> t).
 Proof.
-  intros [n f] t [Hnd Hlt] [H1 H2]. unfold wfA, inuse, release in *; simpl in *. repeat split; auto.
-  - constructor; auto. - intros u [<-|H]; auto. - tauto. - intuition. - intuition. - intros [[a b] c] [d|d]; auto.
+  intros [n f] t [Hnd Hlt] [H1 H2]. unfold wfA, inuse, release in *; simpl in *.
+  split; [split|].
+  - constructor; auto.
+  - intros u [<-|H]; auto.
+  - intros u; split.
+    + intros [Ha Hb]. split; [split; auto|intro; subst; auto].
+    + intros [[Ha Hb] Hc]. split; auto. intros [H|H]; [congruence|auto].
 Qed.
 
 Lemma release_all_ok : forall ts A, wfA A -> NoDup ts -> (forall t, In t ts -> inuse A t) ->
@@ -575,13 +594,13 @@ Proof. destruct r; simpl; intuition; try discriminate; subst; auto. injection H 
 Definition expr_ok (e : expr) : Prop :=
   forall A c r A', gen_expr e A = (c, r, A') -> wfA A ->
     wfA A' /\ (forall u, inuse A' u <-> inuse A u \/ r = RTmp u) /\ (forall u, r = RTmp u -> ~ inuse A u) /\
-    forall O L, (forall u, L u -> inuse A u) -> triple O L c (fun u => L u \/ r = RTmp u).
+    forall O (L : nat -> Prop), (forall u, L u -> inuse A u) -> triple O L c (fun u => L u \/ r = RTmp u).
 
 Definition exprs_ok (es : exprs) : Prop :=
   forall A c rs A', gen_list es A = (c, rs, A') -> wfA A ->
     wfA A' /\ (forall u, inuse A' u <-> inuse A u \/ In u (tmps_of rs)) /\ NoDup (tmps_of rs) /\
     (forall u, In u (tmps_of rs) -> ~ inuse A u) /\
-    forall O L, (forall u, L u -> inuse A u) -> triple O L c (fun u => L u \/ In u (tmps_of rs)).
+    forall O (L : nat -> Prop), (forall u, L u -> inuse A u) -> triple O L c (fun u => L u \/ In u (tmps_of rs)).
 
 Scheme expr_mut := Induction for expr Sort Prop
   with exprs_mut := Induction for exprs Sort Prop.
@@ -619,11 +638,13 @@ Proof. reflexivity. Qed.
 Lemma gen_ok : (forall e, expr_ok e) /\ (forall es, exprs_ok es).
 Proof.
   apply expr_exprs_ind.
-  - (* EArg *) intros i A c r A' H W. injection H as <- <- <-. repeat split; auto; try discriminate.
-    + intros [H|H]; [auto|discriminate].
+  - (* EArg *) intros i A c r A' H W. injection H as <- <- <-. split; [auto|]. split; [|split].
+    + intros u. split; [auto|intros [H|H]; [auto|discriminate]].
+    + intros u H. discriminate.
     + intros O L HL. eapply triple_ext; [|apply triple_nil]. simpl. intuition discriminate.
-  - (* ELoc *) intros x A c r A' H W. injection H as <- <- <-. repeat split; auto; try discriminate.
-    + intros [H|H]; [auto|discriminate].
+  - (* ELoc *) intros x A c r A' H W. injection H as <- <- <-. split; [auto|]. split; [|split].
+    + intros u. split; [auto|intros [H|H]; [auto|discriminate]].
+    + intros u H. discriminate.
     + intros O L HL. eapply triple_ext; [|apply triple_nil]. simpl. intuition discriminate.
   - (* EOp *) intros es IH A c r A' H W. rewrite gen_expr_EOp in H.
     destruct (gen_list es A) as [[c0 rs] A1] eqn:G. destruct (alloc A1) as [d A2] eqn:Al.
@@ -639,11 +660,15 @@ Proof.
       * intros [[[H|H]|H] H']; [auto|tauto|subst; auto].
       * intros [H|H]; [split; [auto|intro; eapply Dj; eauto]|injection H as <-; auto].
     + intros u [= <-]; auto.
-    + intros O L HL. eapply triple_ext; [|eapply triple_app; [apply T1; auto|eapply triple_app]].
+    + intros O L HL.
+      eapply triple_ext; [|eapply triple_app with (L1 := fun u => L u \/ In u (tmps_of rs)); [apply T1; auto|
+        eapply triple_cons with (L1 := fun u => ((L u \/ In u (tmps_of rs)) /\ ~ In u []) \/ u = d)]].
       2:{ apply triple_one. intros s I HB. apply step_IOp; auto.
-          - intros t Ht. right. apply in_tmps_of; auto. - constructor. - intros t [].
+          - intros t Ht. right. apply in_tmps_of; auto.
+          - constructor.
+          - intros t [].
           - intros [H|H]; auto. }
-      2:{ apply triple_decrefs; auto. intros t Ht. left. split; auto. }
+      2:{ apply triple_decrefs; auto; try (intros t Ht; left; split; auto). }
       simpl. intros u. split.
       * intros [[[[H|H] _]|H] H']; [auto|tauto|subst; auto].
       * intros [H|H]; [|injection H as <-; auto].
@@ -662,14 +687,16 @@ Proof.
       * intros [[[H|H]|H] H']; [auto|tauto|subst; auto].
       * intros [H|H]; [split; [auto|intro; eapply Dj; eauto]|injection H as <-; auto].
     + intros u [= <-]; auto.
-    + intros O L HL. eapply triple_ext; [|eapply triple_app; [apply T1; auto|eapply triple_app]].
+    + intros O L HL.
+      eapply triple_ext; [|eapply triple_app with (L1 := fun u => L u \/ In u (tmps_of rs)); [apply T1; auto|
+        eapply triple_cons with (L1 := fun u => (L u \/ In u (tmps_of rs)) \/ u = d)]].
       2:{ apply triple_one. intros s I HB. apply step_IAlloc; auto. intros [H|H]; auto. }
       2:{ apply triple_gives; auto. }
       simpl. intros u. split.
       * intros [[[H|H]|H] H']; [auto|tauto|subst; auto].
       * intros [H|H]; [|injection H as <-; auto].
         split; [left; auto|]. intro; eapply Dj; eauto.
-  - (* ECall *) intros f IHf es IHes A c r A' H W. rewrite gen_expr_ECall in H.
+  - (* ECall *) intros f IHf es IHes A c r A' Hgen W. rewrite gen_expr_ECall in Hgen.
     destruct (alloc A) as [d A1] eqn:Al1. destruct (alloc A1) as [sf A2] eqn:Al2.
     destruct (gen_expr f A2) as [[cf rf] A3] eqn:Gf.
     destruct (alloc_ok _ _ _ Al1 W) as (W1 & Nd1 & U1).
@@ -679,7 +706,7 @@ Proof.
     assert (exists cf2 ft A4,
       (match rf with RTmp t => ([], t, A3) | _ => let '(t, A') := alloc A3 in ([IIncref t rf], t, A') end)
         = (cf2, ft, A4) /\ wfA A4 /\ (forall u, inuse A4 u <-> inuse A2 u \/ u = ft) /\ ~ inuse A2 ft /\
-      forall O L, (forall u, L u -> inuse A2 u) -> triple O L (cf ++ cf2) (fun u => L u \/ u = ft)) as HF.
+      forall O (L : nat -> Prop), (forall u, L u -> inuse A2 u) -> triple O L (cf ++ cf2) (fun u => L u \/ u = ft)) as HF.
     { destruct rf as [i|x|t].
       - destruct (alloc A3) as [t A4] eqn:Al3. destruct (alloc_ok _ _ _ Al3 W3) as (W4 & Nd4 & U4).
         exists [IIncref t (RArg i)], t, A4. split; auto. split; auto. split; [|split].
@@ -698,12 +725,12 @@ Proof.
           apply triple_one. intros. apply step_IIncref; auto. discriminate.
           intro. apply Nd4. apply U3. auto.
       - exists [], t, A3. split; auto. split; auto. split; [|split].
-        + intros u. rewrite U3. split; intros [H|H]; auto. injection H as <-; auto. subst; auto.
+        + intros u. rewrite U3. split; (intros [H|H]; [auto|right]); [injection H as <-; auto|subst; auto].
         + apply Nf; auto.
         + intros O L HL. rewrite app_nil_r. eapply triple_ext; [|apply Tf; auto].
-          simpl. intros u. split; intros [H|H]; auto. injection H as <-; auto. subst; auto. }
-    destruct HF as (cf2 & ft & A4 & EF & W4 & U4 & Nft & TF). rewrite EF in H.
-    destruct (gen_list es A4) as [[ca rs] A5] eqn:Ga. injection H as <- <- <-.
+          simpl. intros u. split; (intros [H|H]; [auto|right]); [injection H as <-; auto|subst; auto]. }
+    destruct HF as (cf2 & ft & A4 & EF & W4 & U4 & Nft & TF). rewrite EF in Hgen.
+    destruct (gen_list es A4) as [[ca rs] A5] eqn:Ga. injection Hgen as <- <- <-.
     destruct (IHes _ _ _ _ Ga W4) as (W5 & U5 & Nd & Dj & Ta).
     assert (Hsf5 : inuse A5 sf). { apply U5. left. apply U4. left. apply U2. auto. }
     destruct (release_ok A5 sf W5 Hsf5) as (W6 & U6).
@@ -719,20 +746,26 @@ Proof.
     destruct (release_ok (release_all (tmps_of rs) (release sf A5)) ft W7) as (W8 & U8).
     { apply U7. split; auto. apply U6. split; auto. apply U5. left. apply U4. auto. }
     split; auto. split; [|split].
-    + intros u. rewrite U8, U7, U6, U5, U4, U2, U1. split.
-      * intros [[[[[[[H|H]|H]|H]|H] H1] H2] H3]; try tauto. subst; auto.
-      * intros [H|H].
-        -- repeat split; auto.
+    + assert (HAsf : ~ inuse A sf). { intro Hx. apply Nd2. apply U1. auto. }
+      assert (HAft : ~ inuse A ft). { intro Hx. apply Nft. apply U2. left. apply U1. auto. }
+      assert (HAT : forall u, In u (tmps_of rs) -> ~ inuse A u).
+      { intros u Hu Hx. apply (Dj _ Hu). apply U4. left. apply U2. left. apply U1. auto. }
+      intros u. rewrite U8, U7, U6, U5, U4, U2, U1. split.
+      * intros [[[[[[[Hx|Hx]|Hx]|Hx]|Hx] H1] H2] H3]; try tauto. subst; auto.
+      * intros [Hx|Hx].
+        -- split; [split; [split|]|].
+           ++ auto.
            ++ intro; subst; auto.
-           ++ intro Hx. apply (Dj _ Hx). apply U4. left. apply U2. left. apply U1. auto.
-           ++ intro; subst. apply Nft. apply U2. left. apply U1. auto.
-        -- injection H as <-. repeat split; auto.
+           ++ intro Hy. apply (HAT _ Hy); auto.
+           ++ intro; subst; auto.
+        -- injection Hx as <-. split; [split; [split|]|]; auto.
     + intros u [= <-]; auto.
     + intros O L HL.
       assert (HL2 : forall u, L u -> inuse A2 u). { intros u Hu. apply U2. left. apply U1. auto. }
       replace (cf ++ cf2 ++ ca ++ [IOp d (RTmp ft :: rs) (tmps_of rs ++ [ft])])
-        with ((cf ++ cf2) ++ ca ++ [IOp d (RTmp ft :: rs) (tmps_of rs ++ [ft])]) by (rewrite app_assoc; auto).
-      eapply triple_ext; [|eapply triple_app; [apply TF; auto|eapply triple_app; [apply Ta|]]].
+        with ((cf ++ cf2) ++ ca ++ [IOp d (RTmp ft :: rs) (tmps_of rs ++ [ft])]) by (symmetry; apply app_assoc).
+      eapply triple_ext; [|eapply triple_app with (L1 := fun u => L u \/ u = ft); [apply TF; auto|
+        eapply triple_app with (L1 := fun u => (L u \/ u = ft) \/ In u (tmps_of rs)); [apply Ta|]]].
       3:{ apply triple_one. intros s I HB. apply step_IOp; auto.
           - intros t [Ht|Ht]; [injection Ht as <-; auto|]. right. apply in_tmps_of; auto.
           - apply NoDup_app_remove_l with (l := []). simpl.
@@ -747,8 +780,10 @@ Proof.
         intros [Hx|[Hx|[]]].
         -- apply (Dj _ Hx). apply U4. auto.
         -- subst. auto.
-  - (* ENil *) intros A c rs A' H W. injection H as <- <- <-. simpl. repeat split; auto; try tauto.
+  - (* ENil *) intros A c rs A' H W. injection H as <- <- <-. simpl. split; [auto|]. split; [|split; [|split]].
+    + intros u; tauto.
     + constructor.
+    + intros u [].
     + intros O L HL. eapply triple_ext; [|apply triple_nil]. simpl; tauto.
   - (* ECons *) intros e IHe es IHes A c rs A' H W. rewrite gen_list_ECons in H.
     destruct (gen_expr e A) as [[c1 r] A1] eqn:G1. destruct (gen_list es A1) as [[c2 rs2] A2] eqn:G2.
